@@ -102,4 +102,21 @@ def wellShapedAll : List Expr → Bool
   | e :: es => wellShaped e && wellShapedAll es
 end
 
+mutual
+/-- the sizes written on `Delegate` leaves fit `usize` (the parser writes only 0 and 1) -/
+def leafSizesOK : Expr → Bool
+  | .delegate _ size _ => decide (size ≤ UNSET)
+  | .concat es => leafSizesOKList es
+  | .alt es => leafSizesOKList es
+  | .group _ e => leafSizesOK e
+  | .look e _ => leafSizesOK e
+  | .repeat e _ _ _ => leafSizesOK e
+  | .atomic e => leafSizesOK e
+  | .cond c y n => leafSizesOK c && leafSizesOK y && leafSizesOK n
+  | _ => true
+def leafSizesOKList : List Expr → Bool
+  | [] => true
+  | e :: es => leafSizesOK e && leafSizesOKList es
+end
+
 end Fancy
